@@ -393,7 +393,7 @@ Proof.
   { rewrite Z2Nat.id by lia. assert (2 ^ (h + 1) <= 2 ^ 64) by (apply pow2_le_mono; lia).
     rewrite pow2_succ in H by lia. lia. }
   { rewrite Z2Nat.id by lia. lia. }
-  rewrite Z2Nat.id in He, Hnb by lia. rewrite Z.mul_1_l in He.
+  rewrite Z2Nat.id in He by lia. rewrite Z.mul_1_l in He.
   unfold slot_of at 1. fold h. rewrite He. cbn [obind].
   destruct (Z.ltb_spec 0 (n + 1 - 2 ^ h)) as [Hlt|Hge].
   - (* same level *)
@@ -403,8 +403,7 @@ Proof.
     unfold slot_of. fold h. rewrite Hl. replace (n + 1 - 2 ^ h - 1) with (n - 2 ^ h) by lia. reflexivity.
   - (* level emptied: n + 1 = 2^h *)
     subst nb. change (c_lt (-1) 0) with true. cbv iota.
-    assert (Hs2 : ssub i32 h 1 = Some (h - 1)) by exact Hs1.
-    rewrite Hs2. cbn [obind].
+    cbn [obind].
     assert (Hn1 : n = 2 ^ h - 1) by lia.
     unfold slot_of; fold h.
     unfold st. destruct (Z.eqb_spec n 0) as [Hz|Hnz].
